@@ -12,7 +12,7 @@ def _helper_sum_fact_xk(n, x):
     n_fact = factorial(n)
     k_factorial = scipy.special.factorial(np.arange(n + 1))
     x_power = np.power(abs(x), np.arange(n + 1))
-    res = n_fact * np.dot(x_power, k_factorial)
+    res = n_fact * np.dot(x_power, 1.0 / k_factorial)
 
     return res
 
